@@ -314,15 +314,18 @@ func (dsc *Discipline[Type]) waitZeroActual() {
 	}
 }
 
-func (dsc *Discipline[Type]) getOneFeedback() {
+// Returns true if waiting was interrupted by a stop or a cancel of the discipline.
+func (dsc *Discipline[Type]) getOneFeedback() bool {
 	select {
 	case <-dsc.breaker.IsBreaked():
-		return
+		return true
 	case <-dsc.opts.Ctx.Done():
-		return
+		return true
 	case priority := <-dsc.opts.Feedback:
 		dsc.decreaseActual(priority)
 	}
+
+	return false
 }
 
 func (dsc *Discipline[Type]) getLimitedFeedback() {
@@ -407,7 +410,10 @@ func (dsc *Discipline[Type]) waitCalcTactic() error {
 			return nil
 		}
 
-		dsc.getOneFeedback()
+		if stopped := dsc.getOneFeedback(); stopped {
+			dsc.resetTactic()
+			return nil
+		}
 	}
 }
 
